@@ -293,6 +293,22 @@ theorem step_skel (p : P) (op : Op) (h1 : ∀ a b c, op ≠ .addProcess a b c) (
           congr 1; congr 1
           exact List.map_set_of (fun x : Process => (x.threads, x.pid)) _ _ _ _ hpr (by rfl)
       · rfl
+  | removeMapping pi start =>
+    simp only [step]
+    split
+    · rfl
+    · rename_i pr hpr
+      simp only [skel]
+      congr 1; congr 1
+      exact List.map_set_of (fun x : Process => (x.threads, x.pid)) _ _ _ _ hpr (by rfl)
+  | clearMappings pi =>
+    simp only [step]
+    split
+    · rfl
+    · rename_i pr hpr
+      simp only [skel]
+      congr 1; congr 1
+      exact List.map_set_of (fun x : Process => (x.threads, x.pid)) _ _ _ _ hpr (by rfl)
   | string s => rfl
   | category n c => simp [step]
   | subcategory c n =>
